@@ -74,7 +74,9 @@ def c07_jobs(add, ncpu, thorough):
     add(["decoder", "--chunks", "2", "--readers", "1"], [0, 1, 2, "none"])
     add(["decoder", "--chunks", "2", "--readers", "2"], [0, 1], 4)
     add(["decoder", "--chunks", "2", "--readers", "2"], [2], ncpu)
-    add(["decoder", "--chunks", "2", "--readers", "3"], [0, 1, 2], 4)
+    # three readers at bound 2 (2.2 M executions) moved to the thorough tier when engine M (the
+    # protocol model, three readers without any bound) joined the quick tier
+    add(["decoder", "--chunks", "2", "--readers", "3"], [0, 1], 4)
     add(["decoder", "--chunks", "3", "--readers", "2", "--ops", "ends"], [0, 1, 2], ncpu)
     add(["decoder-eof"], [0, 1, 2, 3])
     add(["file", "--file", "/dev/shm/x"], [0, 1, 2, 3])
@@ -98,6 +100,7 @@ def c07_jobs(add, ncpu, thorough):
         add(["container", "--pack", PACK, "--cache", "2", "--combos", "full"], [2, 3], ncpu)
         add(["container", "--pack", PACK, "--cache", "1"], ["none"], ncpu)
     if thorough:
+        add(["decoder", "--chunks", "2", "--readers", "3"], [2], ncpu)
         add(["decoder", "--chunks", "2", "--readers", "2"], [3], ncpu)
         add(["decoder", "--chunks", "3", "--readers", "2"], [2], ncpu)
         add(["decoder", "--chunks", "3", "--readers", "3"], [2], ncpu)
